@@ -204,3 +204,25 @@ CONFIG['C16'] = {
     'level_note': "Trusted: Lean kernel, table extractor, harness/protocol; Float32/powf conformance observed, not proved.",
     'technique': "Lean 4 decide +kernel over complete extracted tables + structural theorems about the gap logic + differential correspondence",
 }
+
+CONFIG['C15'] = {
+    'runs': [{'profile': 'verif-dbg'}],
+    'rule': "CropBox::fit_src_into_dst_size on a boundary grid of sizes {1,2,3,5,7,16,255..257,1000,4093,32768,65521,65533..65535}^2 x "
+            "destinations, plus seeded quadruples biased towards equal / nearly equal aspect ratios (60,000 quick, 2,000,000 thorough), "
+            "centerings {0,0.5,1,-3,7,1/3,0.999999999,1e-300,+-inf,0.25,-0.0} and random ones; the result is compared bit for bit with the "
+            "Lean Float mirror and judged against the property on the implementation's own values: accepted by the crate's crop "
+            "validation, aspect ratio within 1e-14 relative, spans a dimension exactly, margin fraction = clamped centering; for sizes "
+            "<= 64 a real resize with fit_into_destination must succeed. distinct_nontrivial counts distinct request lines.",
+    'trusted_base': COMMON_TB + ["Lean Float (hardware binary64; + - * / and comparisons only, no libm) as the carrier of the executable mirror"],
+    'assumptions': ["NaN centering is excluded (as in the property)",
+                    "the ideal box is over the rationals with the tolerance eps of the 'already the needed ratio' branch as a parameter"],
+    'partial': ["that the f64 evaluation stays inside the source in the last ulp (fl(fl(dw/dh)*sh) <= sw, fl(fl(sw-cw)*cx)+cw <= sw) is "
+                "established by enumeration on every run, not by theorem: it needs a bit-level IEEE model"],
+    'level_text': "Machine-checked proof (Lean 4) on the ideal rational crop box for all positive sizes and all centerings: inside the source, "
+                  "destination aspect ratio (exact, or whole source when within eps), spans one dimension, margin fraction equals the "
+                  "clamped centering; the Rust source text is pinned to a bit-exact Float mirror which is compared with the implementation "
+                  "on ~150,000 quadruples per run, and the implementation's own results are judged against the property incl. acceptance "
+                  "by the crate's crop validation.",
+    'level_note': "Trusted: Lean kernel, harness/protocol, Lean Float = IEEE binary64. The f64 last-ulp in-bounds clause is by enumeration.",
+    'technique': "Lean 4 theorems over the rational ideal (field arithmetic) + bit-exact Float mirror + differential correspondence",
+}
